@@ -5,7 +5,7 @@ META = {
     "explanation": "Record order in finish_execution as dominance facts (RT1, RT2), who may write which index by receiver (VI1), "
                    "restore ordering/rollback (RS1, RS3, RS4), the recorded Version's provenance (VI6), no implicit commits (VI7), "
                    "column agreement (VI2) and the frozen inventory of filesystem-mutating call sites (DEL1).",
-    "rules": ["RT1", "RT2", "SGc", "VI1", "RS1", "RS3", "RS4", "VI6", "VI7", "VI2", "DEL1"],
+    "rules": ["RT1", "RT2", "SGc", "VI1", "RS1", "RS3", "RS4", "VI6", "VI7", "VI2", "DEL1", "RT3"],
     "assumptions": ["sqlite3: a row is durable only at commit; a killed process leaves the rolled-back state",
                     "`cond clean` killed midway and power-loss durability of file contents are outside the property's wording"],
     "trusted": ["ast parser", "SQL subset reader", "typed exception summaries"],
@@ -15,6 +15,10 @@ META = {
 def run(A, rep, tier):
     R.rule_rt1(A, rep)
     R.rule_rt2(A, rep)
+    # the data of a recorded version is in its directory only if the task was told to write there: Conductor's
+    # COND_OUT overrides anything inherited
+    from . import envcontract as EC
+    EC.rule_rt3(A, rep)
     # 'only if that execution exited 0': the recorded return code must distinguish a signalled child from exit 0
     R.rule_sgc(A, rep)
     V.rule_vi1(A, rep)
